@@ -167,7 +167,7 @@ func runC05(a Args) tr.Summary {
 				streams++
 				base := c05Case{Shape: g.Name, Class: v.Class, Index: vi, Mode: mode, Cut: -1, Dest: "typed"}
 				var plans [][]int
-				for k := 1; k < len(b) && k <= 40; k++ { // two-way splits
+				for k := 1; k < len(b); k++ { // two-way splits
 					plans = append(plans, []int{k})
 				}
 				for k := 1; k <= 7 && k < len(b); k++ { // fixed chunk sizes
@@ -186,19 +186,12 @@ func runC05(a Args) tr.Summary {
 					}
 					plans = append(plans, p)
 				}
+				// typed and interface{} destinations
 				for _, p := range plans {
 					c := base
 					c.Plan = p
 					one(c, g, b)
-				}
-				// interface{} destination, chunk size 1 and 2
-				for _, k := range []int{1, 2, 3} {
-					p := []int{}
-					for x := 0; x < len(b); x += k {
-						p = append(p, k)
-					}
-					c := base
-					c.Dest, c.Plan = "iface", p
+					c.Dest = "iface"
 					one(c, g, b)
 				}
 				// truncations, byte by byte, read one byte at a time and in two pieces
